@@ -32,70 +32,87 @@ func tiflashEnvs(n, replicas int, extra []int) []envSpec {
 
 func scopes() []*scope {
 	one := []int{0}
+	allTypes := append(append([]string(nil), coldTypes...), hotTypes...)
 	return []*scope{
 		// ------------------------------------------------------------ quick
 		{name: "scatter/5stores/all-up/hist<=2", tiers: "quick",
 			desc: "5 up stores, 3 replicas, rules off: every sequence of <=2 earlier Scatter calls (every 3-store region, groups g1 g2) followed by Scatter of every 3-store region in every peer order with every leader",
 			gen:  genScatter(mkEnvs([]int{5}, []int{3}, one, one, 0, nil), scatterBounds{hist: 2, groups: 2})},
 		{name: "scatter/3-6stores/replicas1-4/hist<=1", tiers: "quick",
-			desc: "3..6 up stores x 1..4 replicas x rules {off, on}: histories of <=1 earlier call (groups g1 g2), last call: every region in every peer order with every leader; ScatterRegions on every ordered pair of regions; one non-leader peer pending",
-			gen: concat(genScatter(mkEnvs([]int{3, 4, 5, 6}, []int{1, 2, 3, 4}, []int{0, 1}, one, 0, nil), scatterBounds{hist: 1, groups: 2}),
-				genScatter(mkEnvs([]int{4, 5}, []int{2, 3}, one, one, 0, nil), scatterBounds{hist: 1, groups: 1, batch: true, lastCanon: true}),
+			desc: "up stores only: 3..5 stores x 1..4 replicas and 6 stores x 1..3 replicas, rules {off, on}: histories of <=1 earlier call (groups g1 g2), last call: every region in every peer order with every leader; 4 and 5 stores, 3 replicas, rules off: ScatterRegions on every ordered pair of regions; one non-leader peer pending",
+			gen: concat(genScatter(mkEnvs([]int{3, 4, 5}, []int{1, 2, 3, 4}, []int{0, 1}, one, 0, nil), scatterBounds{hist: 1, groups: 2}),
+				genScatter(mkEnvs([]int{6}, []int{1, 2, 3}, []int{0, 1}, one, 0, nil), scatterBounds{hist: 1, groups: 2}),
+				genScatter(mkEnvs([]int{4, 5}, []int{3}, one, one, 0, nil), scatterBounds{hist: 1, groups: 1, batch: true, lastCanon: true}),
 				genScatter(mkEnvs([]int{4, 5}, []int{3}, one, one, 0, nil), scatterBounds{hist: 1, groups: 1, pending: true}))},
-		{name: "scatter/4-5stores/1-non-up/hist<=1", tiers: "quick",
-			desc: "4 and 5 stores of which <=1 is offline / down / disconnected / tombstone / evicted / reject-leader, 3 replicas, rules {off, on}; zone labels z1 z1 z2 z2 z3 with location-labels [zone] (5 stores, <=1 of offline/down/evicted/reject-leader): histories of <=1 earlier call, last call in every peer order with every leader",
-			gen: concat(genScatter(mkEnvs([]int{4, 5}, []int{3}, []int{0, 1}, one, 1, allKinds[:6]), scatterBounds{hist: 1, groups: 1}),
-				genScatter(mkEnvs([]int{5}, []int{3}, []int{0, 1}, []int{1}, 1, plainKinds), scatterBounds{hist: 1, groups: 1}))},
+		{name: "scatter/4-5stores/1-non-up/hist<=2", tiers: "quick",
+			desc: "3 replicas, last call in every peer order with every leader: 4 stores of which <=1 is offline / down / disconnected / tombstone / evicted / reject-leader, rules {off, on}, histories of <=2 earlier calls; 5 stores of which <=1 is offline / down / evicted / reject-leader, rules off, without and with zone labels z1 z1 z2 z2 z3 (location-labels [zone]), histories of <=1 call",
+			gen: concat(genScatter(mkEnvs([]int{4}, []int{3}, []int{0, 1}, one, 1, allKinds[:6]), scatterBounds{hist: 2, groups: 1}),
+				genScatter(mkEnvs([]int{5}, []int{3}, one, []int{0, 1}, 1, plainKinds), scatterBounds{hist: 1, groups: 1}))},
 		{name: "scatter/learners+tiflash/hist<=1", tiers: "quick",
-			desc: "placement rules with a learner: (a) 2 voters + 1 learner on TiKV stores, 4 and 5 stores, <=1 non-up store; (b) 2 voters + 1 learner constrained to engine=tiflash, 5 stores of which 2 are TiFlash, <=1 further non-up store: histories of <=1 earlier call, last call in every peer order with every leader",
-			gen: concat(genScatter(mkEnvs([]int{4, 5}, []int{2}, []int{3}, one, 1, plainKinds), scatterBounds{hist: 1, groups: 1}),
+			desc: "placement rules with a learner, histories of <=1 earlier call, last call in every peer order with every leader: (a) 2 voters + 1 learner on TiKV stores, 4 stores (<=1 offline/down/evicted/reject-leader) and 5 up stores; (b) 2 voters + 1 learner constrained to engine=tiflash, 5 stores of which 2 are TiFlash, <=1 of the others offline/down/evicted/reject-leader",
+			gen: concat(genScatter(mkEnvs([]int{4}, []int{2}, []int{3}, one, 1, plainKinds), scatterBounds{hist: 1, groups: 1}),
+				genScatter(mkEnvs([]int{5}, []int{2}, []int{3}, one, 0, nil), scatterBounds{hist: 1, groups: 1}),
 				genScatter(tiflashEnvs(5, 2, plainKinds), scatterBounds{hist: 1, groups: 1}))},
 		{name: "sched/4stores/rules-off", tiers: "quick",
-			desc: "4 stores of which <=1 is offline/down/disconnected/tombstone/evicted/reject-leader/tiflash, 3 replicas, rules off; region on stores 1-3 with every leader, optionally one follower pending; every load vector over 3 levels; balance-region, balance-leader, shuffle-leader, shuffle-region, evict-leader (every evicted store), grant-leader (every up store), label, scatter-range; hot-region and shuffle-hot-region (region hot for read / write, 2 load levels)",
-			gen: concat(genSched(mkEnvs([]int{4}, []int{3}, one, one, 1, allKinds), schedBounds{types: coldTypes, levels: 3, pending: true}),
-				genSched(mkEnvs([]int{4}, []int{3}, one, one, 1, allKinds), schedBounds{types: hotTypes, levels: 2}))},
+			desc: "4 stores of which <=1 is offline/down/disconnected/tombstone/evicted/reject-leader, 3 replicas, rules off; region on stores 1-3 with every leader, optionally one follower pending; every load vector over 3 levels; balance-region, balance-leader, shuffle-leader, shuffle-region, evict-leader (every evicted store), grant-leader (every up store), label, scatter-range; hot-region and shuffle-hot-region (region hot for read / write, 2 load levels, no pending peer)",
+			gen: concat(genSched(mkEnvs([]int{4}, []int{3}, one, one, 1, allKinds[:6]), schedBounds{types: coldTypes, levels: 3, pending: true}),
+				genSched(mkEnvs([]int{4}, []int{3}, one, one, 1, allKinds[:6]), schedBounds{types: hotTypes, levels: 2}))},
 		{name: "sched/4-5stores/rules-on+2regions", tiers: "quick",
-			desc: "(a) placement rules on: 4 stores, 3 voters / 2 voters + 1 TiKV learner (every learner position), <=1 non-up store of offline/down/evicted/reject-leader, 2 load levels, all schedulers; (b) rules off, 5 stores with and without zone labels, <=1 non-up store, 2 load levels, the region (every store subset under labels) plus every second region that shares no (store, role) with it, schedulers without flow statistics",
-			gen: concat(genSched(mkEnvs([]int{4}, []int{3}, []int{1}, one, 1, plainKinds), schedBounds{types: append(append([]string(nil), coldTypes...), hotTypes...), levels: 2}),
-				genSched(mkEnvs([]int{4}, []int{2}, []int{3}, one, 1, plainKinds), schedBounds{types: append(append([]string(nil), coldTypes...), hotTypes...), levels: 2}),
-				genSched(mkEnvs([]int{5}, []int{3}, one, []int{0, 1}, 1, plainKinds), schedBounds{types: coldTypes[:7], levels: 2, second: true}))},
+			desc: "<=1 non-up store, 2 load levels: (a) 4 stores, placement rules on, 3 voters (non-up kinds incl. tiflash) and 2 voters + 1 TiKV learner at every position (offline/down/evicted/reject-leader), all schedulers; (b) 4 stores, rules off, the region plus every second region that shares no (store, role) with it, schedulers without flow statistics except scatter-range; (c) 5 stores, rules off, one region, schedulers without flow statistics",
+			gen: concat(genSched(mkEnvs([]int{4}, []int{3}, []int{1}, one, 1, allKinds), schedBounds{types: allTypes, levels: 2}),
+				genSched(mkEnvs([]int{4}, []int{2}, []int{3}, one, 1, plainKinds), schedBounds{types: allTypes, levels: 2}),
+				genSched(mkEnvs([]int{4}, []int{3}, one, one, 1, plainKinds), schedBounds{types: coldTypes[:7], levels: 2, second: true}),
+				genSched(mkEnvs([]int{5}, []int{3}, one, one, 1, plainKinds), schedBounds{types: coldTypes, levels: 2}))},
 
 		// ------------------------------------------------------------ thorough
 		{name: "scatter/5stores/all-up/hist<=3", tiers: "thorough",
 			desc: "5 up stores, 3 replicas, rules off and on: every sequence of <=3 earlier Scatter calls (every 3-store region, groups g1 g2) followed by Scatter of every 3-store region in every peer order with every leader",
 			gen:  genScatter(mkEnvs([]int{5}, []int{3}, []int{0, 1}, one, 0, nil), scatterBounds{hist: 3, groups: 2})},
 		{name: "scatter/3-6stores/replicas1-4/hist<=2", tiers: "thorough",
-			desc: "3..6 up stores x 1..4 replicas x rules {off, on}: histories of <=2 earlier calls (groups g1 g2); ScatterRegions on every ordered pair of regions and a pending peer with histories of <=2 calls",
-			gen: concat(genScatter(mkEnvs([]int{3, 4, 5, 6}, []int{1, 2, 3, 4}, []int{0, 1}, one, 0, nil), scatterBounds{hist: 2, groups: 2}),
+			desc: "up stores only: 3..5 stores x 1..4 replicas and 6 stores x 1..3 replicas, rules {off, on}: histories of <=2 earlier calls (groups g1 g2; 6 stores x 4 replicas: <=1 call); 4 and 5 stores: ScatterRegions on every ordered pair of regions (2 and 3 replicas) and a pending peer with histories of <=2 calls",
+			gen: concat(genScatter(mkEnvs([]int{3, 4, 5}, []int{1, 2, 3, 4}, []int{0, 1}, one, 0, nil), scatterBounds{hist: 2, groups: 2}),
+				genScatter(mkEnvs([]int{6}, []int{1, 2, 3}, []int{0, 1}, one, 0, nil), scatterBounds{hist: 2, groups: 2}),
+				genScatter(mkEnvs([]int{6}, []int{4}, []int{0, 1}, one, 0, nil), scatterBounds{hist: 1, groups: 2}),
 				genScatter(mkEnvs([]int{4, 5}, []int{2, 3}, one, one, 0, nil), scatterBounds{hist: 2, groups: 2, batch: true, lastCanon: true}),
 				genScatter(mkEnvs([]int{4, 5}, []int{3}, one, one, 0, nil), scatterBounds{hist: 2, groups: 1, pending: true}))},
-		{name: "scatter/4-6stores/2-non-up/hist<=2", tiers: "thorough",
-			desc: "4..6 stores of which <=2 are offline / down / disconnected / tombstone / evicted / reject-leader (6 stores: <=1), 3 replicas (and 2 replicas on 4 stores), rules {off, on}, with and without zone labels (5 and 6 stores): histories of <=2 earlier calls",
-			gen: concat(genScatter(mkEnvs([]int{4, 5}, []int{3}, []int{0, 1}, one, 2, allKinds[:6]), scatterBounds{hist: 2, groups: 1}),
-				genScatter(mkEnvs([]int{4}, []int{2}, []int{0, 1}, one, 2, allKinds[:6]), scatterBounds{hist: 2, groups: 1}),
-				genScatter(mkEnvs([]int{6}, []int{3}, []int{0, 1}, one, 1, allKinds[:6]), scatterBounds{hist: 2, groups: 1}),
-				genScatter(mkEnvs([]int{5, 6}, []int{3}, []int{0, 1}, []int{1}, 1, plainKinds), scatterBounds{hist: 2, groups: 1}))},
+		{name: "scatter/4-6stores/non-up/hist<=2", tiers: "thorough",
+			desc: "3 replicas, rules {off, on}: 4 stores with <=2 and 5 stores with <=1 of offline / down / disconnected / tombstone / evicted / reject-leader, histories of <=2 earlier calls; 5 stores with 2 non-up stores and 6 stores with <=1: histories of <=1 call; 5 stores with zone labels, <=1 of offline/down/evicted/reject-leader: <=2 calls",
+			gen: concat(genScatter(mkEnvs([]int{4}, []int{3}, []int{0, 1}, one, 2, allKinds[:6]), scatterBounds{hist: 2, groups: 1}),
+				genScatter(mkEnvs([]int{5}, []int{3}, []int{0, 1}, one, 1, allKinds[:6]), scatterBounds{hist: 2, groups: 1}),
+				genScatter(mkEnvs([]int{5}, []int{3}, []int{0, 1}, one, 2, plainKinds), scatterBounds{hist: 1, groups: 1}),
+				genScatter(mkEnvs([]int{6}, []int{3}, []int{0, 1}, one, 1, plainKinds), scatterBounds{hist: 1, groups: 1}),
+				genScatter(mkEnvs([]int{5}, []int{3}, []int{0, 1}, []int{1}, 1, plainKinds), scatterBounds{hist: 2, groups: 1}))},
 		{name: "scatter/learners+tiflash/hist<=2", tiers: "thorough",
-			desc: "placement rules with a learner: (a) 2 or 3 voters + 1 learner on TiKV stores, 4..6 stores, <=1 non-up store; (b) 2 or 3 voters + 1 learner on engine=tiflash, 5 and 6 stores of which 2 are TiFlash, <=1 further non-up store: histories of <=2 earlier calls (groups g1 g2)",
-			gen: concat(genScatter(mkEnvs([]int{4, 5, 6}, []int{2, 3}, []int{3}, one, 1, plainKinds), scatterBounds{hist: 2, groups: 2}),
-				genScatter(append(append(tiflashEnvs(5, 2, plainKinds), tiflashEnvs(6, 3, plainKinds)...), tiflashEnvs(6, 2, plainKinds)...), scatterBounds{hist: 2, groups: 2}))},
+			desc: "placement rules with a learner: (a) 2 voters + 1 learner on TiKV stores: 4 stores with <=1 of offline/down/evicted/reject-leader and 5 up stores, histories of <=2 earlier calls; 5 stores with 1 non-up store and 3 voters + 1 TiKV learner on 5 stores (<=1 non-up): <=1 call; (b) a learner on engine=tiflash: 2 voters on 5 stores and 3 voters on 6 stores, 2 of them TiFlash, <=1 of the others offline/down/evicted/reject-leader: <=2 calls (groups g1 g2 on 5 stores)",
+			gen: concat(genScatter(mkEnvs([]int{4}, []int{2}, []int{3}, one, 1, plainKinds), scatterBounds{hist: 2, groups: 1}),
+				genScatter(mkEnvs([]int{5}, []int{2}, []int{3}, one, 0, nil), scatterBounds{hist: 2, groups: 1}),
+				genScatter(mkEnvs([]int{5}, []int{2}, []int{3}, one, 1, plainKinds)[1:], scatterBounds{hist: 1, groups: 1}),
+				genScatter(mkEnvs([]int{5}, []int{3}, []int{3}, one, 1, plainKinds), scatterBounds{hist: 1, groups: 1}),
+				genScatter(tiflashEnvs(5, 2, plainKinds), scatterBounds{hist: 2, groups: 2}),
+				genScatter(tiflashEnvs(6, 3, plainKinds), scatterBounds{hist: 2, groups: 1}))},
 		{name: "sched/4stores/2-non-up", tiers: "thorough",
-			desc: "4 stores of which <=2 are offline/down/disconnected/tombstone/evicted/reject-leader/tiflash, 3 replicas, rules {off, on}; region on stores 1-3 with every leader, optionally one follower pending; every load vector over 3 levels; all schedulers (hot ones: 2 load levels, <=1 non-up store... see quick)",
+			desc: "4 stores of which <=2 are offline/down/disconnected/tombstone/evicted/reject-leader (tiflash too under rules), 3 replicas, rules {off, on}; region on stores 1-3 with every leader, optionally one follower pending; every load vector over 3 levels; all schedulers (hot ones: 2 load levels, no pending peer)",
 			gen: concat(genSched(mkEnvs([]int{4}, []int{3}, []int{0, 1}, one, 2, allKinds), schedBounds{types: coldTypes, levels: 3, pending: true}),
 				genSched(mkEnvs([]int{4}, []int{3}, []int{0, 1}, one, 2, allKinds), schedBounds{types: hotTypes, levels: 2}))},
 		{name: "sched/5stores", tiers: "thorough",
-			desc: "5 stores, 3 replicas, rules {off, on}, with and without zone labels, <=1 non-up store of every kind (<=2 of offline/down/evicted/reject-leader without labels), every load vector over 3 levels (2 levels with 2 non-up stores / second region); second region sharing no (store, role) with the first; all schedulers (hot ones: 2 load levels, one region)",
-			gen: concat(genSched(mkEnvs([]int{5}, []int{3}, []int{0, 1}, []int{0, 1}, 1, allKinds), schedBounds{types: coldTypes, levels: 3, pending: true}),
+			desc: "5 stores, 3 replicas, rules {off, on}: <=1 non-up store of every kind, every load vector over 3 levels, optional pending follower; with zone labels (every region store subset): 2 load levels; <=2 of offline/down/evicted/reject-leader with 2 load levels; a second region sharing no (store, role) with the first (rules off, <=1 non-up, 2 load levels); hot schedulers: <=1 non-up store, 2 load levels",
+			gen: concat(genSched(mkEnvs([]int{5}, []int{3}, []int{0, 1}, one, 1, allKinds), schedBounds{types: coldTypes, levels: 3, pending: true}),
+				genSched(mkEnvs([]int{5}, []int{3}, []int{0, 1}, []int{1}, 1, allKinds), schedBounds{types: coldTypes, levels: 2}),
 				genSched(mkEnvs([]int{5}, []int{3}, []int{0, 1}, one, 2, plainKinds), schedBounds{types: coldTypes, levels: 2}),
-				genSched(mkEnvs([]int{5}, []int{3}, []int{0, 1}, []int{0, 1}, 1, plainKinds), schedBounds{types: coldTypes[:7], levels: 2, second: true}),
-				genSched(mkEnvs([]int{5}, []int{3}, []int{0, 1}, []int{0, 1}, 1, allKinds), schedBounds{types: hotTypes, levels: 2}))},
+				genSched(mkEnvs([]int{5}, []int{3}, one, one, 1, plainKinds), schedBounds{types: coldTypes[:7], levels: 2, second: true}),
+				genSched(mkEnvs([]int{5}, []int{3}, []int{0, 1}, one, 1, allKinds), schedBounds{types: hotTypes, levels: 2}))},
 		{name: "sched/replicas+learners", tiers: "thorough",
-			desc: "4 and 5 stores: 1, 2 and 4 replicas (rules off / on); 2 or 3 voters + 1 TiKV learner (rules on, every learner position); 2 voters + 1 TiFlash learner (5 stores, 2 TiFlash); <=1 non-up store, 3 load levels (hot schedulers 2), all schedulers",
+			desc: "4 and 5 stores, <=1 non-up store: 1, 2 and 4 replicas (rules off / on), 3 load levels; 2 or 3 voters + 1 TiKV learner (rules on, every learner position, optional pending follower; 3 load levels for 2 voters on 4 stores, else 2); 2 voters + 1 TiFlash learner (5 stores, 2 TiFlash, 3 load levels); all schedulers (hot ones: 2 load levels, no pending peer)",
 			gen: concat(genSched(mkEnvs([]int{4, 5}, []int{1, 2, 4}, []int{0, 1}, one, 1, allKinds), schedBounds{types: coldTypes, levels: 3}),
-				genSched(mkEnvs([]int{4, 5}, []int{2, 3}, []int{3}, one, 1, allKinds), schedBounds{types: coldTypes, levels: 3, pending: true}),
+				genSched(mkEnvs([]int{4}, []int{2}, []int{3}, one, 1, allKinds), schedBounds{types: coldTypes, levels: 3, pending: true}),
+				genSched(mkEnvs([]int{4}, []int{3}, []int{3}, one, 1, allKinds), schedBounds{types: coldTypes, levels: 2, pending: true}),
+				genSched(mkEnvs([]int{5}, []int{2, 3}, []int{3}, one, 1, allKinds), schedBounds{types: coldTypes, levels: 2, pending: true}),
 				genSched(tiflashEnvs(5, 2, plainKinds), schedBounds{types: coldTypes, levels: 3}),
 				genSched(mkEnvs([]int{4, 5}, []int{1, 2, 4}, []int{0, 1}, one, 1, plainKinds), schedBounds{types: hotTypes, levels: 2}),
 				genSched(mkEnvs([]int{4, 5}, []int{2, 3}, []int{3}, one, 1, plainKinds), schedBounds{types: hotTypes, levels: 2}))},
+		{name: "sched/scatter-range/capped", tiers: "thorough",
+			desc: "scatter-range only acts on >=5 regions per store: 4 stores (<=1 offline/down/evicted/reject-leader), 5 regions on stores 1-3 (every leader store). NOT exhaustive in the random draws: core.RandomRegions draws 10 regions per pick (5^10 outcomes), the first 2000 outcomes of the depth-first enumeration are executed per input and the scope is reported in caps_hit",
+			gen:  genSched(mkEnvs([]int{4}, []int{3}, one, one, 1, plainKinds), schedBounds{types: []string{schedulers.ScatterRangeType}, levels: 1, clones: 5, runCap: 2000})},
 	}
 }
 
@@ -105,7 +122,7 @@ func boundsDoc() interface{} {
 		"replicas":          "1-4 peers per region (+1 learner under the learner rules)",
 		"store_kinds":       kindStr,
 		"non_up_stores":     "<=1 quick, <=2 thorough",
-		"scatter_histories": "<=2 earlier calls quick (<=1 outside the all-up 5-store scope), <=3 thorough; groups g1 g2",
+		"scatter_histories": "quick: <=2 earlier calls (5 up stores; 4 stores with a non-up store), else <=1; thorough: <=3 (5 up stores), else <=2 (<=1 for the largest environments); groups g1 g2",
 		"scatter_last_call": "every region of the environment that counts as replicated, every peer order, every voter leader; ScatterRegions on pairs; a pending peer",
 		"scheduler_loads":   "per-store load level in {low, mid, high} = region count {2,40,100} / leader count {1,15,40} / flow {0,4.5,7.5} MB/s",
 		"scheduler_regions": "1 region (every leader, learner position, optional pending follower) and 1 further region sharing no (store, role) with it",
